@@ -41,6 +41,20 @@ const GRAMMARS: &[&str] = &[
     "%start E\n%%\nE: E '+' T | T;\nT: 'INT' | '(' E ')';\n",
     "%start E\n%avoid_insert 'INT'\n%%\nE: E '+' T | T ;\nT: 'INT' ;\n// trailing comment\n",
 ];
+/// Variant k of the grammar; the last one declares 260 tokens, which u8 storage refuses (by panic).
+fn grammar_text(k: usize) -> String {
+    if k < GRAMMARS.len() {
+        return GRAMMARS[k].to_string();
+    }
+    let mut s = String::from("%start E\n%token");
+    for i in 0..260 {
+        s.push_str(&format!(" K{i}"));
+    }
+    s.push_str("\n%%\nE: E '+' T | T;\nT: 'INT';\n");
+    s
+}
+const NGRAMMARS: usize = 7;
+
 const BROKEN_GRAMMARS: &[&str] = &[
     "%start E\n%%\nE: E '+' T | T\nT: 'INT';\n",        // missing ';'
     "%start E\n%%\nE: E '+' Undefined | 'INT';\n",      // unknown rule
@@ -77,6 +91,7 @@ const OPTIONS: &[(&str, usize)] = &[
     ("combined", 2),
     ("grammar_dir", 2),
     ("grammar_symlink", 2),
+    ("storaget", 3),
 ];
 
 #[derive(Clone, PartialEq, Debug)]
@@ -150,10 +165,15 @@ impl Settings {
         spec.strict_terms_in_lexer = Some(self.get("strict_terms_in_lexer") == 1);
         spec.strict_tokens_in_parser = Some(self.get("strict_tokens_in_parser") == 1);
         spec.combined = Some(self.get("combined") == 1);
+        spec.storaget = match self.get("storaget") {
+            0 => None,
+            1 => Some("u16".into()),
+            _ => Some("u8".into()),
+        };
     }
     /// settings that are recorded in the parser's cache or change the parser module
     fn parser_relevant(&self) -> Vec<usize> {
-        ["parser_mod_name", "visibility", "edition", "recoverer", "yacckind", "serialisation", "error_on_conflicts", "warnings_are_errors", "show_warnings"]
+        ["parser_mod_name", "visibility", "edition", "recoverer", "yacckind", "serialisation", "error_on_conflicts", "warnings_are_errors", "show_warnings", "storaget"]
             .iter()
             .map(|n| {
                 let v = self.get(n);
@@ -216,7 +236,7 @@ impl Prop for C18 {
         let mut ops = vec![];
         for _ in 0..n {
             let op = match ch.weighted(&[4, 2, 1, 4, 2, 1, 3, 1]) {
-                0 => Op::EditGrammar(ch.pick(GRAMMARS.len())),
+                0 => Op::EditGrammar(ch.pick(NGRAMMARS)),
                 1 => Op::EditLexer(ch.pick(LEXERS.len())),
                 2 => Op::Touch,
                 3 => {
@@ -226,7 +246,7 @@ impl Prop for C18 {
                 4 => Op::BreakGrammar(ch.pick(BROKEN_GRAMMARS.len())),
                 5 => Op::BreakLexer,
                 6 => Op::Build,
-                _ => Op::EditGrammarAtOutputTime(ch.pick(GRAMMARS.len())),
+                _ => Op::EditGrammarAtOutputTime(ch.pick(NGRAMMARS)),
             };
             ops.push(op);
             if ch.chance(1, 2) {
@@ -239,7 +259,7 @@ impl Prop for C18 {
         serde_json::to_value(Case { ops, probe_one_call_stale_parser: false }).unwrap()
     }
     fn rule(&self) -> String {
-        "Histories of 1-8 operations (each possibly followed by Build, always ending in Build) over {EditGrammar(6 variants), EditGrammarAtOutputTime (an edit whose file time equals that of the parser module generated before), EditLexer(6 variants, two lacking tokens some grammars use), Touch, SetOption(17 builder options incl. mod names, visibility (all variants, pub(in ..) with two different paths), edition, recoverer, yacckind, serialisation format, error_on_conflicts, warnings flags, lexer flags, strictness about tokens missing from the lexer / from the parser, the flow: two builders in turn or the one-call CTLexerBuilder::lrpar_config, grammar_path switched between two files of the same leaf name in different directories, and grammar_path naming the file through a symbolic link), BreakGrammar(4 kinds: syntax error, unknown rule, broken %grmtools section, unexpected conflicts), BreakLexer, Build}. Every Build runs the real CTParserBuilder/CTLexerBuilder in a process of its own; file times come from a logical clock. Oracle after every Build: successful => parser and lexer modules byte-identical (timestamp masked) to a clean build of the same sources/settings into an empty directory; nothing changed since the last successful build => regenerated()==false and files untouched; grammar text or a parser-relevant option changed => regenerated()==true; failed => no generated file from the earlier sources left at the output path. Evaluation = one Build step. Non-trivial: a change between two builds or a failing build after a successful one; distinct by hash(history).".into()
+        "Histories of 1-8 operations (each possibly followed by Build, always ending in Build) over {EditGrammar(7 variants, one with 260 tokens that u8 storage refuses by panic), EditGrammarAtOutputTime (an edit whose file time equals that of the parser module generated before), EditLexer(6 variants, two lacking tokens some grammars use), Touch, SetOption(18 builder options incl. mod names, visibility (all variants, pub(in ..) with two different paths), edition, recoverer, yacckind, serialisation format, error_on_conflicts, warnings flags, lexer flags, strictness about tokens missing from the lexer / from the parser, the flow: two builders in turn or the one-call CTLexerBuilder::lrpar_config, grammar_path switched between two files of the same leaf name in different directories, grammar_path naming the file through a symbolic link, and the storage type u32/u16/u8 of the builders' lexer types), BreakGrammar(4 kinds: syntax error, unknown rule, broken %grmtools section, unexpected conflicts), BreakLexer, Build}. Every Build runs the real CTParserBuilder/CTLexerBuilder in a process of its own; file times come from a logical clock. Oracle after every Build: successful => parser and lexer modules byte-identical (timestamp masked) to a clean build of the same sources/settings into an empty directory; nothing changed since the last successful build => regenerated()==false and files untouched; grammar text or a parser-relevant option changed => regenerated()==true; failed => no generated file from the earlier sources left at the output path. Evaluation = one Build step. Non-trivial: a change between two builds or a failing build after a successful one; distinct by hash(history).".into()
     }
     fn assumptions(&self) -> Vec<String> {
         vec!["a Touch (same bytes, newer time) may or may not regenerate".into()]
@@ -294,7 +314,7 @@ impl Prop for C18 {
             clock += 10;
             match op {
                 Op::EditGrammar(k) => {
-                    gtext = GRAMMARS[*k].to_string();
+                    gtext = grammar_text(*k);
                     gtexts[gdir] = gtext.clone();
                     std::fs::write(&gps[gdir], &gtext).unwrap();
                     set_mtime(&gps[gdir], clock);
@@ -302,7 +322,7 @@ impl Prop for C18 {
                     touched = true;
                 }
                 Op::EditGrammarAtOutputTime(k) => {
-                    gtext = GRAMMARS[*k].to_string();
+                    gtext = grammar_text(*k);
                     gtexts[gdir] = gtext.clone();
                     std::fs::write(&gps[gdir], &gtext).unwrap();
                     match std::fs::metadata(&po).ok().map(|m| FileTime::from_last_modification_time(&m)) {
